@@ -17,7 +17,7 @@ def secs(*a):
 
 CLOCKS = [secs(2020, 2, 29, 12, 0, 0), secs(2019, 12, 31, 23, 59, 59), secs(2023, 3, 1, 0, 0, 0), secs(1999, 12, 31, 23, 59, 59),
           secs(2024, 2, 28, 23, 59, 59), secs(1, 1, 1, 0, 0, 0), secs(9998, 12, 31, 23, 59, 58) - 86400, secs(2100, 2, 28, 12, 30, 30),
-          secs(2000, 2, 29, 0, 0, 1), secs(1900, 3, 1, 0, 0, 0)]
+          secs(2000, 2, 29, 0, 0, 1), secs(1900, 3, 1, 0, 0, 0), secs(999, 12, 31, 23, 59, 59), secs(476, 9, 4, 1, 2, 3), secs(1000, 1, 1, 0, 0, 0), secs(99, 6, 7, 8, 9, 10)]
 
 
 def parse(s):
